@@ -299,7 +299,9 @@ func TestC01(t *testing.T) {
 			st := store.New()
 			var l ipld.Link
 			var err error
-			withWidth(2, func() { l, _, err = builder.BuildUnixFSFile(&zeroReader{left: n}, "size-1048576", st.LinkSystem(false)) })
+			withWidth(2, func() {
+				l, _, err = builder.BuildUnixFSFile(&zeroReader{left: n}, "size-1048576", st.LinkSystem(false))
+			})
 			if err != nil {
 				c.Violation("C01|build-error", "%v", err)
 				return
